@@ -280,6 +280,9 @@ func (f *c18Fixture) ka(i int, id int64, via string) {
 func (f *c18Fixture) reply(id int64, via string) {
 	p := &packet.KeepAlive{RandomID: id}
 	switch via {
+	case "initial":
+		newInitialConnectSessionHandler(f.player).HandlePacket(&proto.PacketContext{Direction: proto.ServerBound, Protocol: version.Minecraft_1_20.Protocol,
+			Packet: p, Payload: []byte{0x12}})
 	case "config":
 		h := newClientConfigSessionHandler(f.player)
 		h.HandlePacket(&proto.PacketContext{Direction: proto.ServerBound, Protocol: version.Minecraft_1_20_3.Protocol,
@@ -423,6 +426,18 @@ func c18Run(c c18Case) verifkit.Result {
 				if r >= 0 && !m.b[r].has(op.ID) && m.b[r].answered[op.ID] > 0 {
 					labels["reply-to-answered"] = true
 				}
+			}
+			if op.Via == "initial" {
+				// the handler that serves the client while the first backend connection is
+				// being established does not deal with keep-alives at all: nothing reaches
+				// a backend, nothing is consumed
+				f.reply(op.ID, op.Via)
+				labels["reply-via-initial-connect-handler"] = true
+				w, bad := f.newWrites()
+				if bad != "" || len(w) > 0 {
+					return verifkit.Fail("forward:by-initial-connect-handler", "step %d %+v: a keep-alive the client sent while the initial-connect handler was active reached backends %v %s (pending ids are matched only by the play / config handlers)", step, op, w, bad)
+				}
+				continue
 			}
 			f.reply(op.ID, op.Via)
 			want := m.reply(op.ID)
@@ -578,7 +593,7 @@ func c18Gen(t *rapid.T) c18Case {
 			}
 			add(c18Op{K: "ka", B: b, ID: c18GenID(t, bursts), Via: rapid.SampledFrom(c18KaVias).Draw(t, "via")})
 		default:
-			add(c18Op{K: "reply", ID: c18GenID(t, bursts), Via: rapid.SampledFrom(c18RepVias).Draw(t, "via")})
+			add(c18Op{K: "reply", ID: c18GenID(t, bursts), Via: rapid.SampledFrom([]string{"play", "config", "play", "config", "play", "config", "initial"}).Draw(t, "via")})
 		}
 	}
 	return c18Case{Ops: ops}
@@ -836,7 +851,7 @@ func c18GenRace(t *rapid.T) c18RaceCase {
 
 func TestVerif_C18(t *testing.T) {
 	verifkit.Check(t, "C18", "history",
-		"op histories (<=42 ops) over {new in-flight backend, promote, abort, backend state login/config/play/closed/no-conn, backend keep-alive via config/play/transition handler (ids 1..5 so ids repeat and collide across backends), bursts of 60..70 keep-alives (crossing the 64 bound), client reply via play/config handler}; every step compared with an exact model (LRU-64 pending set per backend, current before in-flight); non-trivial = a reply whose id is pending on two backends or was evicted by the bound",
+		"op histories (<=42 ops) over {new in-flight backend, promote, abort, backend state login/config/play/closed/no-conn, backend keep-alive via config/play/transition handler (ids 1..5 so ids repeat and collide across backends), bursts of 60..70 keep-alives (crossing the 64 bound), client reply via play/config handler or via the initial-connect handler (never forwarded, nothing consumed)}; every step compared with an exact model (LRU-64 pending set per backend, current before in-flight); non-trivial = a reply whose id is pending on two backends or was evicted by the bound",
 		c18Gen, c18Run)
 }
 
